@@ -14,7 +14,7 @@ CFG = cfg('C08', extract='Ex_C08', driver='c08',
 TEXT = ('Rocq theorems (Props/C08.v, closed): one generic round-trip theorem dec_enc for the format-combinator language (big-endian fields, '
         'fixed octets, constants, MPIs, length-prefixed regions with n-octet and new-format lengths, repetition) by induction on fuel with fuel '
         'sufficiency in the statement: for every format term, value and trailing data, decoding the encoding returns the value and leaves exactly '
-        'the trailing data; every packet type of Model/Packets.v (30 format terms: PKESK, signature v4 with subpacket areas, SKESK, one-pass, public '
+        'the trailing data; every packet type of Model/Packets.v (62 format terms: PKESK, signature v4 with subpacket areas, SKESK, one-pass, public '
         'keys/subkeys of 6 algorithms, compressed, SED, marker, literal, user id, user attribute, SEIPD, MDC, opaque) is a self-delimiting instance, '
         'and the emitted header carries exactly the body length. The foreign-input half (old-format / partial framings, GnuPG fixtures) is decided on '
         'the implementation by the correspondence run. Known finding: DSA/ElGamal secret keys with S2K usage 255 (not exercised).',
